@@ -1,7 +1,7 @@
 (* C13 — the buffered connection behaves as a lossless FIFO byte stream (reader spec). *)
 From Coq Require Import String.
 From Coq Require Import List Strings.Byte NArith Bool Arith.
-Require Import Bytes Show Rd RdProofs.
+Require Import Bytes Show Rd RdProofs LinkBuf LinkBufProofs.
 Import ListNotations.
 
 (* `rd` is the reader specification every HTTP model is written against: a byte queue fed by a
@@ -29,6 +29,52 @@ Theorem C13_peek_fragmentation_independent : forall i r1 r2,
   stream r1 = stream r2 -> fst (peek i r1) = fst (peek i r2).
 Proof. exact peek_sched_indep. Qed.
 Print Assumptions C13_peek_fragmentation_independent.
+
+(* ---- the linked buffer as it is built (Model/LinkBuf.v; unit c13.linkbuf compares results and the node
+   structure with the real standard.Conn after every operation) ----
+
+   `Inv`: the read position is inside the node list, every node has off <= malloc <= cap, Len() equals the
+   number of buffered unconsumed bytes, and the source keeps the net.Conn contract (no (0, nil) read).
+   For EVERY initial size, EVERY source script and EVERY sequence of Peek / Skip / ReadByte / ReadBinary /
+   Len / Release / Read: no operation runs off the node list (`SkCrash`), no fill calls Read with an empty
+   buffer or spins (`FStuck`), the invariant holds afterwards, and the bytes handed out so far followed by the
+   bytes still buffered or still to arrive are exactly the bytes the connection delivers. *)
+Theorem C13_linkbuf_fifo : forall (size : nat) (src : list rres) (ops : list lop), src_ok src ->
+  exists consumed s', lrun ops (init_lb size src) = Some (consumed, s') /\
+                      srcbytes src = consumed ++ lstream s' /\ Inv s'.
+Proof.
+  intros size src ops OK. pose proof (lb_fifo ops (init_lb size src) (init_inv size src OK)) as H.
+  destruct (lrun ops (init_lb size src)) as [[c s']|]; [|contradiction].
+  destruct H as [I St]. exists c, s'. rewrite <- (init_stream size src). auto.
+Qed.
+Print Assumptions C13_linkbuf_fifo.
+
+(* Release — whichever of its three branches runs, also the oversized-tail replacement — keeps the unread
+   bytes and the invariant *)
+Theorem C13_release_keeps_the_unread_bytes : forall s, Inv s ->
+  Inv (lb_release s) /\ unread (lb_release s) = unread s /\ lsrc (lb_release s) = lsrc s.
+Proof. exact lb_release_spec. Qed.
+Print Assumptions C13_release_keeps_the_unread_bytes.
+
+(* Peek(i) never gets stuck, changes nothing of the stream, returns the next bytes, and exactly i of them
+   unless it reports an error *)
+Theorem C13_linkbuf_peek : forall i s, Inv s ->
+  match lb_peek i s with
+  | PkOk b e s' => Inv s' /\ lstream s' = lstream s /\ b = firstn (length b) (unread s') /\
+                   (e = false -> length b = i) /\ (length b <= i)%nat
+  | PkStuck => False
+  end.
+Proof. exact lb_peek_spec. Qed.
+Print Assumptions C13_linkbuf_peek.
+
+(* Len() is the number of buffered, unconsumed bytes in every reachable state: field inv_len of Inv *)
+Theorem C13_len_is_buffered_unconsumed : forall s, Inv s -> llen s = length (unread s).
+Proof. exact inv_len. Qed.
+
+Example C13_linkbuf_nonvacuous :
+  lb_script [B "0"; B "P3,S2,X,B,L"; B "0ab"; B "0cde"] =
+  B "P616263@len=5 max=4096 r=0 err=0 4096:5:0:0;S@len=3 max=4096 r=0 err=0 4096:5:2:0;X@len=3 max=4096 r=0 err=0 4096:5:2:1;B63@len=2 max=4096 r=0 err=0 4096:5:3:1;L2@len=2 max=4096 r=0 err=0 4096:5:3:1".
+Proof. vm_compute. reflexivity. Qed.
 
 Example C13_nonvacuous :
   rd_script [B "P3,S2,B,P9,L,R2,P1"; B "0ab"; B "0cde"; B "1fg"] = B "P616263 S B63 P64656667! L R6465 P66".
